@@ -340,6 +340,66 @@ impl Report {
         self.n_violating_cases.load(Ordering::Relaxed) > 0
     }
 
+    /// Export what this report has collected so far, so that another process can fold it into
+    /// its own report for the same property (a property whose check spans two harness crates).
+    pub fn export_part(&self) -> Value {
+        json!({
+            "property": self.property,
+            "evaluations": self.evaluations(),
+            "nontrivial": self.nontrivial.lock().unwrap().iter().cloned().collect::<Vec<u64>>(),
+            "outcomes": *self.outcomes.lock().unwrap(),
+            "samples": *self.samples.lock().unwrap(),
+            "assumptions": *self.assumptions.lock().unwrap(),
+            "caps": *self.caps.lock().unwrap(),
+            "violating_cases": self.n_violating_cases.load(Ordering::Relaxed),
+            "violations": self.violations.lock().unwrap().iter().map(|v| json!({
+                "clause": v.clause, "features": v.features, "detail": v.detail, "replay": v.replay,
+            })).collect::<Vec<_>>(),
+        })
+    }
+
+    /// Fold a part exported by `export_part` into this report.
+    pub fn import_part(&self, part: &Value) {
+        self.eval(part["evaluations"].as_u64().unwrap_or(0));
+        if let Some(a) = part["nontrivial"].as_array() {
+            self.nontrivial_many(a.iter().filter_map(|x| x.as_u64()));
+        }
+        if let Some(o) = part["outcomes"].as_object() {
+            for (k, v) in o {
+                self.outcome_n(k, v.as_u64().unwrap_or(0));
+            }
+        }
+        for s in part["samples"].as_array().into_iter().flatten().take(3) {
+            self.sample(s.clone());
+        }
+        for a in part["assumptions"].as_array().into_iter().flatten() {
+            if let Some(a) = a.as_str() {
+                self.assume(a);
+            }
+        }
+        for c in part["caps"].as_array().into_iter().flatten() {
+            if let Some(c) = c.as_str() {
+                self.cap(c);
+            }
+        }
+        let kept = part["violations"].as_array().map(|a| a.len()).unwrap_or(0) as u64;
+        let total = part["violating_cases"].as_u64().unwrap_or(kept);
+        for v in part["violations"].as_array().into_iter().flatten() {
+            let mut viol = Violation::new(
+                v["clause"].as_str().unwrap_or("?"),
+                v["detail"].as_str().unwrap_or(""),
+                v["replay"].clone(),
+            );
+            if let Some(f) = v["features"].as_object() {
+                for (k, val) in f {
+                    viol = viol.feat(k, val.as_str().unwrap_or(""));
+                }
+            }
+            self.violation(viol);
+        }
+        self.n_violating_cases.fetch_add(total.saturating_sub(kept), Ordering::Relaxed);
+    }
+
     /// Write evidence, print KNOWN-FINDING / VIOLATION lines, return the exit code.
     pub fn finish(&self, rule: &str, exhaustive: bool) -> i32 {
         let known = load_known_findings(&self.property);
